@@ -45,7 +45,8 @@ CONSTANTS MaxOverloads,   \* overloads per set
 ---------------------------------------------------------------------------
 (* Categories *)
 AllCats == <<"i8", "u8", "i16", "u16", "i32", "u32", "il", "ul", "i64", "u64",
-             "f32", "f64", "bool", "str", "rA", "cA", "rB", "cB", "rD", "cD">>
+             "f32", "f64", "bool", "str", "rA", "cA", "rB", "cB", "rD", "cD",
+             "cM", "vM", "pM", "cT", "cE", "cW">>
 CatSet == {AllCats[i] : i \in 1..Len(AllCats)}
 CatIx == [c \in CatSet |-> CHOOSE i \in 1..Len(AllCats) : AllCats[i] = c]
 IntCats == {"i8", "u8", "i16", "u16", "i32", "u32", "il", "ul", "i64", "u64"}
@@ -53,6 +54,17 @@ FloatCats == {"f32", "f64"}
 \* classes: A <- B <- D (a three-level chain), C unrelated
 InstCats == {"rA", "cA", "rB", "cB", "rD", "cD"}
 Arith == IntCats \cup FloatCats \cup {"bool"}
+\* class-typed parameters (const K &, K by value, K *) of classes WITHOUT bases that have converting
+\* constructors <<parameter type, explicit>>:
+\*   M: explicit M(int), M(double)       T: explicit T(int), T(const std::string &)
+\*   E: explicit E(int)                  W: W(int), W(double)
+CoCats == {"cM", "vM", "pM", "cT", "cE", "cW"}
+CoClass(c) == CASE c \in {"cM", "vM", "pM"} -> "M" [] c = "cT" -> "T" [] c = "cE" -> "E" [] c = "cW" -> "W"
+IsPtr(c) == c = "pM"
+Ctors(K) == CASE K = "M" -> {<<"i32", TRUE>>, <<"f64", FALSE>>} [] K = "T" -> {<<"i32", TRUE>>, <<"str", FALSE>>}
+              [] K = "E" -> {<<"i32", TRUE>>} [] K = "W" -> {<<"i32", FALSE>>, <<"f64", FALSE>>}
+Implicit(K) == {x[1] : x \in {y \in Ctors(K) : ~y[2]}}
+InstOf(a) == CASE a.t = "iM" -> "M" [] a.t = "iT" -> "T" [] a.t = "iE" -> "E" [] a.t = "iW" -> "W" [] OTHER -> ""
 
 (* index : value   1:-2^63-1  2:-2^63  3:-2^31-1  4:-2^31  5:-32769  6:-32768  7:-129  8:-128
    9:-1  10:0  11:1  12:127  13:128  14:255  15:256  16:32767  17:32768  18:65535  19:65536
@@ -68,9 +80,10 @@ InULong(v) == v \in 10..26
 
 \* Python type category of a parameter ("distinguishable by Python type category")
 PyCat(c) == CASE c \in IntCats -> "int" [] c \in FloatCats -> "float"
-              [] c \in {"rA", "cA"} -> "A" [] c \in {"rB", "cB"} -> "B" [] c \in {"rD", "cD"} -> "D" [] OTHER -> c
+              [] c \in {"rA", "cA"} -> "A" [] c \in {"rB", "cB"} -> "B" [] c \in {"rD", "cD"} -> "D" [] c \in CoCats -> CoClass(c) [] OTHER -> c
 
-OtherArgs == {"float", "bool", "str", "bytes", "none", "iA", "iB", "iD", "kA", "kB", "iC", "wrong"}
+OtherArgs == {"float", "bool", "str", "bytes", "none", "iA", "iB", "iD", "kA", "kB", "iC", "wrong",
+              "iM", "iT", "iE", "iW"}
 IntArg(v) == [t |-> "int", v |-> v]
 Args == {IntArg(v) : v \in IntVals} \cup {[t |-> k, v |-> 0] : k \in ArgKinds}
 
@@ -116,7 +129,17 @@ Finish == ~done /\ Len(S) >= 1 /\ done' = TRUE /\ UNCHANGED <<S, kind, nm>>
 Next == Add \/ Finish
 Spec == Init /\ [][Next]_vars
 
-InDomain == Distinguishable(S)
+\* ... and two overloads with equal sort keys must not both be able to take an argument through
+\* converting constructors of different classes (C++ calls that ambiguous; here the order of the two,
+\* decided by allocation order, would decide)
+NoCoerceTie(T) ==
+  \A n \in 1..MaxParams : \A j1, j2 \in 1..Len(T) :
+     (j1 < j2 /\ Accepts(T[j1], n) /\ Accepts(T[j2], n) /\ T[j1].k = T[j2].k /\ Len(T[j1].p) = Len(T[j2].p))
+       => ~( /\ \A i \in 1..Len(T[j1].p) : (T[j1].p[i] = T[j2].p[i] \/ (T[j1].p[i] \in CoCats /\ T[j2].p[i] \in CoCats))
+             /\ \E i \in 1..Len(T[j1].p) : T[j1].p[i] \in CoCats /\ T[j2].p[i] \in CoCats
+                                            /\ CoClass(T[j1].p[i]) # CoClass(T[j2].p[i])
+                                            /\ Implicit(CoClass(T[j1].p[i])) # {} /\ Implicit(CoClass(T[j2].p[i])) # {} )
+InDomain == Distinguishable(S) /\ NoCoerceTie(S)
 
 ---------------------------------------------------------------------------
 (* Calls *)
@@ -146,7 +169,7 @@ HasKw(call) == \E i \in 1..Len(call.kw) : call.kw[i] # ""
 \* names the keywords are; st = "bad" (unknown or duplicate keyword, a required parameter missing:
 \* TypeError), "gap" (a defaulted parameter before a named one is left out: legal in Python, no
 \* C++ counterpart, no claim), "ok"
-Norm(T, call) ==
+Norm0(T, call) ==
   LET n == Len(call.a)
       pos(i) == IF call.kw[i] = "" THEN i ELSE PosOfName(call.kw[i])
       filled == {pos(i) : i \in 1..n}
@@ -161,14 +184,53 @@ Norm(T, call) ==
                   THEN "gap" ELSE "bad"]
      ELSE [a |-> [q \in 1..n |-> call.a[CHOOSE i \in 1..n : pos(i) = q]], self |-> call.self, ok |-> ok, st |-> "ok"]
 
+\* an integer outside the range of int passed where some overload has a class with converting
+\* constructors: errors raised inside the coerce function are not modelled (status "gap": no claim)
+Norm(T, call) ==
+  LET n0 == Norm0(T, call) IN
+  IF n0.st = "ok" /\ \E i \in 1..Len(n0.a) : \E j \in 1..Len(T) :
+        n0.a[i].t = "int" /\ n0.a[i].v \notin 4..20 /\ i <= Len(T[j].p) /\ T[j].p[i] \in CoCats
+    THEN [n0 EXCEPT !.st = "gap"] ELSE n0
+
 N(call) == Len(call.a)
 SelfOK(o, self) == self # "c" \/ o.k          \* a const object only has its const methods
 
 ---------------------------------------------------------------------------
 (* REFERENCE *)
+\* type of a decimal literal of that value (int, long, unsigned long as g++ extends it)
+Lit(v) == IF v \in 4..20 THEN "i32" ELSE IF v \in 2..24 THEN "il" ELSE IF v \in 25..26 THEN "ul" ELSE "x"
+
+\* rank of the standard conversion between arithmetic / string types: 0 = none, 1 = exact,
+\* 2 = promotion, 3 = conversion
+StdRank(ct, c) ==
+  IF ct \in Arith /\ c \in Arith THEN
+       IF ct = c THEN 1
+       ELSE IF c = "i32" /\ ct \in {"i8", "u8", "i16", "u16", "bool"} THEN 2
+       ELSE IF c = "f64" /\ ct = "f32" THEN 2
+       ELSE 3
+  ELSE IF ct = "str" /\ c = "str" THEN 1 ELSE 0
+
+\* the C++ type of an argument that is not a class instance
+ArgStd(a) == CASE a.t = "int" -> Lit(a.v) [] a.t = "bool" -> "bool" [] a.t = "float" -> "f64"
+               [] a.t = "str" -> "str" [] OTHER -> "x"
+
+\* copy-initialisation of a K from a value of type ct ([dcl.init], [over.match.copy]): only the
+\* NON-explicit converting constructors are candidates; the one with the best standard conversion
+\* of the argument is used.  Result: the parameter type of that constructor, "none", or "amb"
+CppCtor(K, ct) ==
+  LET V == {p \in Implicit(K) : StdRank(ct, p) # 0}
+      W == {p \in V : \A q \in V \ {p} : StdRank(ct, p) < StdRank(ct, q)}
+  IN IF V = {} THEN "none" ELSE IF W = {} THEN "amb" ELSE CHOOSE p \in W : TRUE
+
 \* the property's correspondence: int -> integer types, float -> floating types, str -> string,
-\* bool -> bool, instance -> its class or a base class (a const instance only where const is accepted)
+\* bool -> bool, instance -> its class or a base class (a const instance only where const is
+\* accepted); a class taken by value or const reference also corresponds to what one of its
+\* non-explicit constructors converts (an explicit constructor never converts; a pointer never does)
 Corr(arg, c) ==
+  IF c \in CoCats THEN
+       \/ InstOf(arg) = CoClass(c)
+       \/ ~IsPtr(c) /\ InstOf(arg) = "" /\ CppCtor(CoClass(c), ArgStd(arg)) \notin {"none", "amb"}
+  ELSE
   CASE arg.t = "int" -> c \in IntCats
     [] arg.t = "bool" -> c = "bool"
     [] arg.t = "float" -> c \in FloatCats
@@ -184,15 +246,12 @@ CorrCands(T, call) ==
   {j \in 1..Len(T) \cap call.ok : /\ Accepts(T[j], N(call)) /\ SelfOK(T[j], call.self)
                                    /\ \A i \in 1..N(call) : Corr(call.a[i], T[j].p[i])}
 
-\* type of a decimal literal of that value (int, long, unsigned long as g++ extends it)
-Lit(v) == IF v \in 4..20 THEN "i32" ELSE IF v \in 2..24 THEN "il" ELSE IF v \in 25..26 THEN "ul" ELSE "x"
-
 \* the C++ argument type corresponding to a Python argument: an integer has the integer type of
 \* the parameter it corresponds to (when the corresponding overloads agree on it), otherwise the
 \* type of the literal
 ArgType(T, call, i) ==
   LET a == call.a[i] IN
-  CASE a.t = "int" -> LET TT == {T[j].p[i] : j \in CorrCands(T, call)} IN
+  CASE a.t = "int" -> LET TT == {IF T[j].p[i] \in IntCats THEN T[j].p[i] ELSE Lit(a.v) : j \in CorrCands(T, call)} IN
                       IF TT = {} THEN Lit(a.v)
                       ELSE IF Cardinality(TT) = 1 THEN CHOOSE x \in TT : TRUE ELSE "mixed"
     [] a.t = "bool" -> "bool"
@@ -200,16 +259,18 @@ ArgType(T, call, i) ==
     [] a.t = "str" -> "str"
     [] a.t = "iA" -> "A" [] a.t = "iB" -> "B" [] a.t = "iD" -> "D" [] a.t = "iC" -> "C"
     [] a.t = "kA" -> "kA" [] a.t = "kB" -> "kB"
+    [] InstOf(a) # "" -> InstOf(a)
     [] OTHER -> "x"
 
 \* implicit conversion sequence <<rank, derived-to-base depth, cv added>>; rank 0 = none,
-\* 1 = exact, 2 = promotion, 3 = conversion  ([over.best.ics], [over.ics.rank])
+\* 1 = exact, 2 = promotion, 3 = conversion, 4 = user-defined conversion (one converting
+\* constructor)  ([over.best.ics], [over.ics.rank])
 ICS(ct, c) ==
-  IF ct \in Arith /\ c \in Arith THEN
-       IF ct = c THEN <<1, 0, 0>>
-       ELSE IF c = "i32" /\ ct \in {"i8", "u8", "i16", "u16", "bool"} THEN <<2, 0, 0>>
-       ELSE IF c = "f64" /\ ct = "f32" THEN <<2, 0, 0>>
-       ELSE <<3, 0, 0>>
+  IF c \in CoCats THEN
+       IF ct = CoClass(c) THEN <<1, 0, 0>>
+       ELSE IF ~IsPtr(c) /\ CppCtor(CoClass(c), ct) \notin {"none", "amb"} THEN <<4, 0, 0>>
+       ELSE <<0, 0, 0>>
+  ELSE IF ct \in Arith /\ c \in Arith THEN <<StdRank(ct, c), 0, 0>>
   ELSE IF ct = "str" THEN (IF c = "str" THEN <<1, 0, 0>> ELSE <<0, 0, 0>>)
   ELSE IF ct = "A" THEN (CASE c = "rA" -> <<1, 0, 0>> [] c = "cA" -> <<1, 0, 1>> [] OTHER -> <<0, 0, 0>>)
   ELSE IF ct = "B" THEN (CASE c = "rB" -> <<1, 0, 0>> [] c = "cB" -> <<1, 0, 1>>
@@ -250,6 +311,7 @@ IntOut(call, o) == \E i \in 1..N(call) : call.a[i].t = "int" /\ o.p[i] \in IntCa
 \* everything has a truth value; an int is accepted where a float is wanted; bool is an int
 PyAccept(arg, c) ==
   \/ c = "bool"
+  \/ c \in CoCats /\ ~IsPtr(c) /\ InstOf(arg) = "" /\ CppCtor(CoClass(c), ArgStd(arg)) = "amb"
   \/ c \in IntCats /\ arg.t \in {"int", "bool"}
   \/ c \in FloatCats /\ arg.t \in {"int", "bool", "float"}
   \/ Corr(arg, c)
@@ -318,6 +380,7 @@ Groups(T) == {[lo |-> Bot(T), hi |-> Top(T), R |-> MapSet(T, Bot(T))]}
 TS(c) == CASE c = "str" -> 9 [] c = "u64" -> 7 [] c = "i64" -> 6 [] c \in IntCats -> 5
            [] c = "f64" -> 4 [] c = "f32" -> 3 [] c = "bool" -> 1
            [] c \in {"rA", "cA"} -> 20 [] c \in {"rB", "cB"} -> 40 [] c \in {"rD", "cD"} -> 60
+           [] c \in CoCats -> 20
 
 \* RemapCompareLess (the this parameter is the same for all remaps of a method)
 RECURSIVE LessFrom(_, _, _)
@@ -372,14 +435,29 @@ P2(c, a, mode) ==
        [] OTHER -> "ok"
 
 \* phase 3 (extra_param_check): the instance pointer was extracted
-P3(c, a) == IF c \in InstCats THEN Corr(a, c) ELSE TRUE
+\* Dtool_Coerce_K (write_coerce_constructor): generated for a class that has a non-explicit
+\* converting constructor; it tries those constructors most specific first with the single-argument
+\* type checks.  Result: the parameter type of the constructor used, or "fail"
+HasCoerce(K) == Implicit(K) # {}
+MechCoerce(K, a) ==
+  LET ok == {p \in Implicit(K) : P1(p, a, "single") = "ok" /\ P2(p, a, "single") = "ok"}
+  IN IF ok = {} THEN "fail" ELSE CHOOSE p \in ok : \A q \in ok : TS(q) <= TS(p)
+\* phase 3 (extra_param_check): the instance pointer was extracted; co = the overload is written
+\* with coercion (the only overload of its count, or the second pass).  Pointer parameters are
+\* coerced like references
+P3(c, a, co) ==
+  IF c \in InstCats THEN Corr(a, c)
+  ELSE IF c \in CoCats THEN
+       \/ InstOf(a) = CoClass(c)
+       \/ co /\ InstOf(a) = "" /\ HasCoerce(CoClass(c)) /\ MechCoerce(CoClass(c), a) # "fail"
+  ELSE TRUE
 
 FirstBad(seq) == IF \E i \in 1..Len(seq) : seq[i] # "ok"
                    THEN seq[CHOOSE i \in 1..Len(seq) : seq[i] # "ok" /\ \A m \in 1..(i - 1) : seq[m] = "ok"]
                    ELSE "ok"
 
 \* one remap inside a group: "run" | "runwrap" | "runpend" | "raise" | "fail" | "failovf"
-Try(o, call, g, mode) ==
+Try(o, call, g, mode, co) ==
   LET n == N(call)
       np == Min2(n, Len(o.p))
       r1 == FirstBad([i \in 1..np |-> P1(o.p[i], call.a[i], mode)])
@@ -392,21 +470,21 @@ Try(o, call, g, mode) ==
      ELSE IF n < g.lo THEN (IF mode = "var" /\ r1 = "failovf" THEN "failovf" ELSE "fail")
      ELSE IF r1 # "ok" THEN r1
      ELSE IF \E i \in 1..np : r2[i] = "raise" THEN "raise"
-     ELSE IF \E i \in 1..np : ~P3(o.p[i], call.a[i]) THEN "fail"
+     ELSE IF \E i \in 1..np : ~P3(o.p[i], call.a[i], co) THEN "fail"
      ELSE IF \E i \in 1..np : r2[i] = "pend" THEN "runpend"
      ELSE IF \E i \in 1..np : r2[i] = "wrap" THEN "runwrap"
      ELSE "run"
 
-RECURSIVE Pass(_, _, _, _, _, _)
-Pass(T, call, g, mode, ord, x) ==
+RECURSIVE Pass(_, _, _, _, _, _, _, _)
+Pass(T, call, g, mode, ord, x, co, sole) ==
   IF x > Len(ord) THEN [k |-> "TypeError", j |-> 0]
   \* a remap whose parameter names are not the keywords of the call fails its parse
-  ELSE LET r == IF ord[x] \notin call.ok THEN "fail" ELSE Try(T[ord[x]], call, g, mode) IN
+  ELSE LET r == IF ord[x] \notin call.ok THEN "fail" ELSE Try(T[ord[x]], call, g, mode, co) IN
        CASE r \in {"run", "runwrap"} -> [k |-> r, j |-> ord[x]]
          [] r = "runpend" -> [k |-> "OverflowAfterRun", j |-> ord[x]]
          [] r = "raise" -> [k |-> "OverflowError", j |-> 0]
-         [] r = "failovf" /\ (Len(ord) = 1 \/ "ovf-cleared" \in Fixed) -> [k |-> "OverflowError", j |-> 0]
-         [] OTHER -> Pass(T, call, g, mode, ord, x + 1)
+         [] r = "failovf" /\ (sole \/ "ovf-cleared" \in Fixed) -> [k |-> "OverflowError", j |-> 0]
+         [] OTHER -> Pass(T, call, g, mode, ord, x + 1, co, sole)
 
 \* everything that depends on the set only, computed once per set: the groups, whether the
 \* wrapper switches on the argument count, and the admissible sort orders of every group
@@ -422,7 +500,18 @@ GroupFor(T, n) == GroupForC(SetCtx(T), n)
 \* the tuple and the keywords itself ("var")
 ModeOf(T, g) == IF g.lo = 1 /\ g.hi = 1 /\ (~KwCapable(T) \/ Cardinality({NameOf(j, 1) : j \in g.R}) = 1)
                   THEN "single" ELSE "var"
-PySelect(T, call, ord, g) == Pass(T, call, g, ModeOf(T, g), ord, 1)
+\* is_remap_coercion_possible: some parameter is a class with a coerce function
+Coercible(o) == \E i \in 1..Len(o.p) : o.p[i] \in CoCats /\ HasCoerce(CoClass(o.p[i]))
+SubSeq2(ord, keep) == LET RECURSIVE F(_) F(x) == IF x > Len(ord) THEN <<>>
+                                                ELSE (IF keep[ord[x]] THEN <<ord[x]>> ELSE <<>>) \o F(x + 1) IN F(1)
+\* write_function_forset: a single remap is written with coercion; several are tried in order
+\* without coercion first, then those that can coerce are tried again with it
+PySelect(T, call, ord, g) ==
+  IF Len(ord) = 1 THEN Pass(T, call, g, ModeOf(T, g), ord, 1, TRUE, TRUE)
+  ELSE LET r1 == Pass(T, call, g, ModeOf(T, g), ord, 1, FALSE, FALSE)
+           ord2 == SubSeq2(ord, [j \in 1..Len(T) |-> Coercible(T[j])])
+       IN IF r1.k # "TypeError" \/ ord2 = <<>> THEN r1
+          ELSE Pass(T, call, g, ModeOf(T, g), ord2, 1, TRUE, FALSE)
 
 \* all results the mechanism can produce for a normalised call (one per admissible sort order)
 PyResultsN(T, call, cx) ==
@@ -515,6 +604,20 @@ DevClassesC(T, call, cx) ==
         IntAt(j, i) /\ P2(T[j].p[i], call.a[i], mode) = "raise"
         /\ T[j].p[i2] \in InstCats /\ ~Corr(call.a[i2], T[j].p[i2])
      THEN {"C02-range-check-before-instance-check"} ELSE {})
+  \cup
+  \* overloads that need a converting constructor are tried in sort order in the second pass: one that
+  \* converts an argument which another overload takes as it is can run first
+  (IF \E j1, j2 \in R : \E i \in Pos(T, call, j1) \cap Pos(T, call, j2) :
+        /\ j1 # j2 /\ j2 \in CorrCands(T, call)
+        /\ T[j1].p[i] \in CoCats /\ InstOf(call.a[i]) = "" /\ MechCoerce(CoClass(T[j1].p[i]), call.a[i]) # "fail"
+        /\ T[j2].p[i] \notin CoCats
+     THEN {"C02-coercing-overload-first"} ELSE {})
+  \cup
+  \* a pointer parameter K * is coerced like a reference: a temporary K is built from a value that
+  \* C++ would never convert to a pointer
+  (IF \E j \in R : \E i \in Pos(T, call, j) :
+        IsPtr(T[j].p[i]) /\ InstOf(call.a[i]) = "" /\ MechCoerce(CoClass(T[j].p[i]), call.a[i]) # "fail"
+     THEN {"C02-pointer-parameter-coerced"} ELSE {})
   \cup
   \* a remap without parameters inside a range of counts runs whatever arguments were passed
   (IF "extra-args" \notin Fixed /\ N(call) > 0 /\ g.lo < g.hi /\ \E j \in R : Len(T[j].p) = 0
